@@ -5,10 +5,11 @@ touches only the header store and the header head, and a chunk is accepted only 
 last header's own path that the header MMR does not hold yet - in particular no non-last header of
 the chunk the followers build on - is denied or fails its root check.
 
-Partly open (checked on the real code by the run `known`, phase E, and by the model on every chunk):
-"a chunk of fresh headers is accepted iff each header is accepted singly, in order" is reduced to
-two path facts about `forkBlocks` (`chunk_accepted_iff_each_singly_partial`); deriving them from "fresh,
-linked chunk" needs `path (child) = path (parent) ++ [child]` and is not done. -/
+"A chunk of fresh headers is accepted iff each header is accepted singly, in order" is proved in
+three steps: the reduction to two path facts about `forkBlocks` here
+(`chunk_accepted_iff_given_fork_set`), the path facts in Props/C06ChunkPath.lean
+(`chunk_accepted_iff_no_root_fault`), the fold of the single-header path in
+Props/C06ChunkSingles.lean (`singles_iff`, `chunk_accepted_iff_each_singly`). -/
 namespace GV.Props.C06Chunk
 open GV GV.Chain
 
@@ -147,20 +148,20 @@ theorem chunk_with_wrong_fork_header_refused (p : Params) (deny : List Nat) (n n
     rw [ht] at this
     cases this
 
-/- FULL STATEMENT (not proved): for a chunk `bs` of registered headers, none known as a full block,
+/- The full statement (proved as `chunk_accepted_iff_each_singly`, Props/C06ChunkSingles.lean): for a chunk `bs` of registered headers, none known as a full block,
 none in the header store, each the child of its predecessor and the first a child of a stored
 header, on a node whose stored headers all passed their root check and whose header chain lies in
 the header store:  (∃ n', processHeadersK p [] n bs = .ok n')  ↔  the fold of `processHeaderK p []`
-over `bs` succeeds at every step. Missing: H1 / H2 below from those hypotheses. -/
+over `bs` succeeds at every step. -/
 /-- **chunk = its headers one by one, reduced to one path fact.** With no denylist: once the
 per-header loop is through (it runs the same `validate_header` checks, on the same growing header
 store, as the single-header path does for fresh headers), the chunk is accepted iff NO header of
 the chunk fails its root check - which is what delivering them one by one decides - PROVIDED the
 headers the MMR step re-applies are the chunk's own plus already stored, untagged ones (`H1`: every
 chunk header is on the last header's path and off the header chain; `H2`: the other re-applied
-headers passed their root check when they were stored). `H1` / `H2` are the path facts
-(`path(child) = path(parent) ++ [child]`) still to be proved from "fresh, linked chunk". -/
-theorem chunk_accepted_iff_each_singly_partial (p : Params) (n n1 : Node) (bs : List Blk) (last : Blk)
+headers passed their root check when they were stored). `H1` / `H2` are derived from "fresh,
+linked chunk" in Props/C06ChunkPath.lean. -/
+theorem chunk_accepted_iff_given_fork_set (p : Params) (n n1 : Node) (bs : List Blk) (last : Blk)
     (hl : bs.getLast? = some last) (hv : validateChunk p [] n bs = .ok n1)
     (H1 : ∀ b ∈ bs, b ∈ forkBlocks n1 last.id)
     (H2 : ∀ b ∈ forkBlocks n1 last.id, b ∉ bs → hasTag b "hdr:" = none) :
